@@ -110,6 +110,25 @@ def run(R):
         R.ok('C13.GRD.1', inst, site(ini, ini.f.node))
     else:
         R.fail('C13.GRD.1', inst, ini.qual, 'def __init__', 'a checker can be built without the sanity check', site(ini, ini.f.node))
+    # ------------------------------------------------------------------ LOP.2 backtracking ends at the start node
+    R.ob('C13.LOP.2', 'queries terminate: backtracking leaves the tree only at the start node, whose parent link the loader forces to be absent '
+                      '(or the matcher stops at start_id)')
+    mt = ctx(R, CK + '.Checker._match')
+    back = [n for n in mt.cfg.nodes if n.kind == 'stmt' and isinstance(n.ast, ast.Assign) and ast.unparse(n.ast.targets[0]) == 'cur' and ast.unparse(n.ast.value) == 'node.parent']
+    stops_at_start = any(t.kind == 'test' and 'start_id' in ast.unparse(t.ast) for t in mt.cfg.nodes)
+    cmp_t = [t for t in df.cfg.nodes if t.kind == 'test' and cmp_sides(t.ast) in (('node.parent', ast.NotEq, par), (par, ast.NotEq, 'node.parent'))]
+    none_skip = {(t.id, truthy_label(t.ast, par)) for t in df.cfg.nodes if t.kind == 'test' and truthy_label(t.ast, par) is not None}
+    root_t = [t for t in df.cfg.nodes if t.kind == 'test' and ast.unparse(t.ast) in ('node.parent is not None', 'node.parent is None')]
+    inst = mt.qual + ' :: exit of the backtracking loop'
+    if not back:
+        raise AnalysisError('_match: backtracking step `cur = node.parent` not found')
+    root_checked = bool(cmp_t) and any(t.id in df.cfg.reachable(removed_edges=none_skip) for t in cmp_t)
+    if stops_at_start or root_checked:
+        R.ok('C13.LOP.2', inst, site(df, cmp_t[0].ast) if cmp_t else site(mt, back[0].ast), 'start node parent is compared with None' if root_checked else 'matcher stops at start_id')
+    else:
+        R.fail('C13.LOP.2', inst, df.qual, cmp_t[0].stmt if cmp_t and isinstance(cmp_t[0].stmt, ast.If) else 'def dfs',
+               'the parent link of the start node is never checked (the comparison is skipped when there is no expected parent): a model whose '
+               'start node names a parent is accepted and every non-matching query then backtracks forever', site(df, df.f.node))
     # ------------------------------------------------------------------ GRD.2 integer ids never by truthiness
     R.ob('C13.GRD.2', 'integer ids (node id, parent, destination, tag: 0 is a legal value) are tested with `is None`, never by truthiness')
     INTS = {par, cur, 've.dest', 'pe.dest', 'pe.tag', 'op.tag', 'node.parent', 'node.id', 'key_node_id'}
